@@ -29,10 +29,10 @@ fi
 suite=$(echo "$suite_out" | grep -E "^test result" | tr '\n' ' ')
 echo "suite-with-change: $suite failed=[$failed]" >> $log
 mkdir -p tests; cp "$m/demo.rs" tests/demo.rs
-demo_with=$(timeout 300 cargo test --offline --test demo 2>&1 | grep -E "^test result|error(\[|:)" | head -3 | tr '\n' ' ')
+demo_with=$(timeout 300 cargo test --offline --test demo 2>&1 | grep -E "^test result" | head -3 | tr '\n' ' ')
 echo "demo-with-change: $demo_with" >> $log
 git checkout -q -- src
-demo_without=$(timeout 300 cargo test --offline --test demo 2>&1 | grep -E "^test result|error(\[|:)" | head -3 | tr '\n' ' ')
+demo_without=$(timeout 300 cargo test --offline --test demo 2>&1 | grep -E "^test result" | head -3 | tr '\n' ' ')
 echo "demo-without-change: $demo_without" >> $log
 rm -f tests/demo.rs
 ok=1
